@@ -19,7 +19,9 @@ for sid in args:
     if a.returncode != 0:
         a = subprocess.run(["git", "-C", "/repo", "apply", "--3way", os.path.join(d, "patch.diff")], capture_output=True, text=True)
         if a.returncode != 0:
-            print(f"{sid}: patch does not apply: {a.stderr[:300]}"); rc_all = 2; continue
+            print(f"{sid}: patch does not apply: {a.stderr[:300]}"); rc_all = 2
+            subprocess.run(["git", "-C", "/repo", "reset", "-q", "--hard", "HEAD"], check=False)
+            continue
     try:
         out = {}
         for p in props:
